@@ -102,6 +102,12 @@ impl SimNet {
     }
 }
 
+/// no scenario of any check comes near this number of packets (the largest ones send a few thousand)
+pub const PACKET_BUDGET: u64 = 300_000;
+thread_local! {
+    pub static PACKET_BUDGET_HIT: std::cell::Cell<bool> = const { std::cell::Cell::new(false) };
+}
+
 #[derive(Debug)]
 struct AlwaysWritable;
 impl UdpPoller for AlwaysWritable {
@@ -118,7 +124,14 @@ impl AsyncUdpSocket for SimSocket {
     fn try_send(&self, t: &Transmit) -> io::Result<()> {
         let mut n = self.net.0.lock().unwrap();
         n.sent += 1;
-        let pol = n.policy.get(&(self.addr, t.destination)).copied().unwrap_or(Policy::Deliver);
+        let mut pol = n.policy.get(&(self.addr, t.destination)).copied().unwrap_or(Policy::Deliver);
+        // horizon of an execution in packets: endpoints that keep exchanging packets without virtual time ever advancing
+        // (a livelock, e.g. an endpoint re-sending the same bytes forever) would never reach a virtual-time timeout.
+        // Beyond the budget the network goes dark, virtual time advances again and the scenario ends as a failure.
+        if n.sent > PACKET_BUDGET {
+            PACKET_BUDGET_HIT.with(|h| h.set(true));
+            pol = Policy::Drop;
+        }
         // a transmit may carry several segments
         let seg = t.segment_size.unwrap_or(t.contents.len()).max(1);
         for chunk in t.contents.chunks(seg) {
